@@ -307,6 +307,14 @@ def hard_cases(rnd, n=None, year=2001):
           field={"mulches": True, "mulch_pct": 50, "f_mulch": 0.5}),
     ]
     cases += [
+        # temperature extremes around flowering (pollination heat / cold stress, hot nights above the crop's upper temperature)
+        S("Maize", "Loam", seed=rnd.randrange(10 ** 6), irr={"method": 1, "kw": {"SMT": [70] * 4}},
+          events=[{"from": dstr(p0 + _dt.timedelta(days=58)), "to": dstr(p0 + _dt.timedelta(days=80)), "Tmax": 43.5, "Tmin": 31.0}]),
+        S("Barley", "SiltLoam", seed=rnd.randrange(10 ** 6), irr={"method": 2, "kw": {"IrrInterval": 8}},
+          events=[{"from": dstr(p0 + _dt.timedelta(days=40)), "to": dstr(p0 + _dt.timedelta(days=70)), "Tmax": 9.0, "Tmin": 3.0},
+                  {"from": dstr(p0 + _dt.timedelta(days=71)), "to": dstr(p0 + _dt.timedelta(days=85)), "Tmax": 38.0, "Tmin": 19.0}]),
+    ]
+    cases += [
         # the reverse contrast (fine over coarse): water table standing in the upper layer; net irrigation with roots in the lower layer
         S("Tomato", seed=rnd.randrange(10 ** 6), soil_spec=LAYERED_SOILS["clay_over_sand"], iwc={"value": ["FC", "FC"], "depth_layer": [1, 2]},
           gw={"water_table": "Y", "dates": [f"{year}/04/20"], "values": [0.35]}),
